@@ -141,6 +141,33 @@ fn walk_one<H: Header>(
             _ => out.push("badop".into()),
         }
     }
+    // iterator-protocol probes on fresh iterators (nothing is appended when every route agrees with `next()`)
+    {
+        let mk = || TagIter::<H>::new(slice);
+        let key = |t: &DynSizedStructure<H>| t as *const DynSizedStructure<H> as *const u8 as usize;
+        let mut it = mk();
+        let mut m = 0usize;
+        let ended = loop {
+            match guarded(|| it.next()) {
+                Err(()) => break false,
+                Ok(None) => break true,
+                Ok(Some(_)) => m += 1,
+            }
+            if m > 600 {
+                break true;
+            }
+        };
+        let w = if m > 600 {
+            None
+        } else if ended {
+            probe(mk, key, m, true)
+        } else {
+            probe_panicked(mk, key, m)
+        };
+        if let Some(w) = w {
+            out.push(format!("probe:{}", w));
+        }
+    }
     out.join(";")
 }
 
